@@ -105,25 +105,46 @@ func lenBucket(n int) int {
 
 func genWire(t *rapid.T) wireCase {
 	if rapid.IntRange(0, 2).Draw(t, "long") == 0 {
-		return wireCase{Labels: gen.NameOfWireLen(t, rapid.IntRange(245, 262).Draw(t, "wl"), gen.NameOpts{})}
+		return wireCase{Labels: uniformly(t, gen.NameOfWireLen(t, rapid.IntRange(245, 262).Draw(t, "wl"), gen.NameOpts{}))}
 	}
-	return wireCase{Labels: gen.Name(t, gen.NameOpts{MaxLabs: 10, Long: rapid.Bool().Draw(t, "biaslong")})}
+	return wireCase{Labels: uniformly(t, gen.Name(t, gen.NameOpts{MaxLabs: 10, Long: rapid.Bool().Draw(t, "biaslong")}))}
+}
+
+// uniformly sometimes rewrites every octet of the name to one escaping class (all need \DDD, all
+// need \c, all plain), so that the text form is as long or as short as the wire length allows.
+func uniformly(t *rapid.T, n wm.Name) wm.Name {
+	if !gen.Rarely(t, 2) {
+		return n
+	}
+	class := rapid.SampledFrom([]string{"\x00\x01\x1f\x7f\x80\xfe\xff", ".\\ \"();@'", "abcXYZ019-_"}).Draw(t, "uclass")
+	n = n.Clone()
+	for _, l := range n {
+		for i := range l {
+			l[i] = class[rapid.IntRange(0, len(class)-1).Draw(t, "uo")]
+		}
+	}
+	return n
 }
 
 // all 256 octet values x first/middle/last position x first/middle/last label
 func eachOctetPosition(emit func(wireCase)) {
-	for wl := 240; wl <= 270; wl++ { // every total length around the limit, as maximal labels
-		var n wm.Name
-		left := wl - 1
-		for left > 0 {
-			ll := min(left-1, 63)
-			if left-1-ll == 1 {
-				ll--
+	// every total length around the limit, as maximal labels, filled with one octet of each escaping
+	// class (plain: 1 character per octet, \c: 2, \DDD: 4 - the longest text a name can have is the
+	// 255-octet name of four labels in which every octet needs \DDD: 1004 characters)
+	for _, fill := range []byte{'x', 'X', '7', '.', '\\', ' ', '"', 0x00, 0x1f, 0x7f, 0x80, 0xff} {
+		for wl := 240; wl <= 270; wl++ {
+			var n wm.Name
+			left := wl - 1
+			for left > 0 {
+				ll := min(left-1, 63)
+				if left-1-ll == 1 {
+					ll--
+				}
+				n = append(n, bytes.Repeat([]byte{fill}, ll))
+				left -= 1 + ll
 			}
-			n = append(n, bytes.Repeat([]byte{'x'}, ll))
-			left -= 1 + ll
+			emit(wireCase{Labels: n})
 		}
-		emit(wireCase{Labels: n})
 	}
 	for v := 0; v < 256; v++ {
 		for pos := 0; pos < 3; pos++ {
